@@ -135,6 +135,7 @@ Definition process_wait (waitpid : nat -> Q -> bool -> wp) (pid_exists : Q -> bo
 (* ---- psutil.Popen: a Process that wraps a subprocess.Popen (psutil/__init__.py, class Popen) ----
    Two memos exist side by side: subprocess's `returncode` (set by poll()/wait()/communicate()/__exit__ of the
    wrapped object, which reap the child themselves) and psutil's `_exitcode`.  Popen.wait():
+       if timeout is not None and not timeout >= 0: raise ValueError(...)      (fix 4baf627)
        if self.__subproc.returncode is not None: return self.__subproc.returncode
        ret = super().wait(timeout); self.__subproc.returncode = ret; return ret            *)
 Record popen := mk_popen {
@@ -143,7 +144,8 @@ Record popen := mk_popen {
 
 Definition new_popen : popen := {| sub_rc := None; ps_obj := new_pobj |}.
 
-Definition popen_wait (waitpid : nat -> Q -> bool -> wp) (pid_exists : Q -> bool) (pid : Z)
+(* the code before fix 4baf627: no validation of its own, so a collected status was returned even for wait(-1) *)
+Definition popen_wait_legacy (waitpid : nat -> Q -> bool -> wp) (pid_exists : Q -> bool) (pid : Z)
     (st : popen) (timeout : option Q) (fuel : nat) (t0 : Q) : wres * popen * Q * list Q :=
   match sub_rc st with
   | Some z => (RInt z, st, t0, [])
@@ -151,6 +153,12 @@ Definition popen_wait (waitpid : nat -> Q -> bool -> wp) (pid_exists : Q -> bool
     let '(r, o', t', sl) := process_wait waitpid pid_exists pid (ps_obj st) timeout fuel t0 in
     (r, {| sub_rc := match r with RInt z => Some z | _ => None end; ps_obj := o' |}, t', sl)
   end.
+
+(* as is: "if timeout is not None and not timeout >= 0: raise ValueError" comes first *)
+Definition popen_wait (waitpid : nat -> Q -> bool -> wp) (pid_exists : Q -> bool) (pid : Z)
+    (st : popen) (timeout : option Q) (fuel : nat) (t0 : Q) : wres * popen * Q * list Q :=
+  if bad_timeout timeout then (RValueError, st, t0, [])
+  else popen_wait_legacy waitpid pid_exists pid st timeout fuel t0.
 
 (* the wrapped object collects status z itself (poll / wait / communicate / leaving the `with` block):
    subprocess only asks the kernel while its returncode is still None *)
